@@ -425,7 +425,7 @@ class Interp:
         for n in names:
             if n in ("Exception", "BaseException"):
                 return True
-            if n == exc_type:
+            if n == exc_type or (n and n.rsplit(".", 1)[-1] == exc_type):
                 return True
             a, b = _EXC.get(n), _EXC.get(exc_type)
             if a and b and issubclass(b, a):
